@@ -43,7 +43,7 @@ J sched_json(Rng &r, const std::string &tier, int n_tasks_hint, bool want_fn_yie
 	s.set("jitter_us", jit);
 	{ uint64_t g = r.below(100); s.set("grid_us", jit ? 1 : g < 45 ? 5000 : g < 60 ? 1000 : 1); }
 	// descheduling fault at lock / unlock points (one run in three), never during the start-up handshake (its probe windows are legitimate timeouts)
-	if (r.chance(330)) { static const int mx[] = {200, 5000, 12000, 30000}; s.set("preempt_permille", (int) r.range(3, 60)); s.set("preempt_max_us", mx[r.below(4)]); s.set("preempt_from_ms", 4300); }
+	if (r.chance(330)) { static const int mx[] = {200, 5000, 12000, 30000}; s.set("preempt_permille", (int) r.range(3, 60)); s.set("preempt_max_us", mx[r.below(4)]); }
 	s.set("epoch_phase_us", (long long) r.below(1000000));
 	return s;
 }
@@ -64,7 +64,6 @@ static sim::SchedParams parse_sched(const J &plan) {
 	p.grid_us = (uint32_t) s.geti("grid_us", 1);
 	p.preempt_permille = (uint32_t) s.geti("preempt_permille", 0);
 	p.preempt_max_us = (uint32_t) s.geti("preempt_max_us", 0);
-	p.preempt_from_us = (uint64_t) s.geti("preempt_from_ms", 0) * 1000;
 	p.epoch0_us = 1700000000ULL * 1000000ULL + (uint64_t) s.geti("epoch_phase_us", 0);
 	p.max_steps = (uint64_t) s.geti("max_steps", 4000000);
 	p.max_time_us = (uint64_t) s.geti("max_time_s", 900) * 1000000ULL;
@@ -151,6 +150,7 @@ int Engine::do_start(const J &st) {
 		dir = cfgdir.c_str();
 	}
 	int r;
+	sim::preempt_enable(false);    // the start-up handshake has legitimate probe windows: no descheduling fault inside it
 	{
 		sim::ApiScope api(mode == "serial" ? "bidib_start_serial" : "bidib_start_pointer");
 		bidib_set_lowlevel_debug_mode(debug_mode);
@@ -164,6 +164,7 @@ int Engine::do_start(const J &st) {
 	}
 	start_ret = r;
 	running = (r == 0);
+	sim::preempt_enable(true);
 	sim::hash_u64((uint64_t) r);
 	return r;
 }
